@@ -48,7 +48,7 @@ func epochOptions(r *rand.Rand, maxPop int) *neat.Options {
 		o.GenCompatMethod = neat.GenomeCompatibilityMethodLinear
 	}
 	o.NodeActivators = []neatmath.NodeActivationType{neatmath.GaussianBipolarActivation, neatmath.SigmoidSteepenedActivation}
-	o.NodeActivatorsProb = []float64{0.5, 0.5}
+	o.NodeActivatorsProb = [][]float64{{0.5, 0.5}, {0.5, 0.5}, {0.875, 0.125}, {0.25, 0.75}}[r.Intn(4)]
 	o.BabiesStolen = []int{0, 0, o.PopSize / 4, o.PopSize / 2, 1 + r.Intn(4)}[r.Intn(5)] // small pools (< 5): only the 4th+ species receive
 	return o
 }
